@@ -336,6 +336,8 @@ theorem getTrieNode_ok {cfg : Cfg} (hf : Faithful cfg) {tc : KV VNode} {tt et : 
 def ReadOK (w : World) (op : Op) (a : Ans) : Prop :=
   match op, refRead w op with
   | .get _, some r => a = ansOf r
+  | .getn _, some r => a = ansOf r
+  | .getr _, some r => a = ansOf r
   | .query _ _, some r => a = ansOf r
   | .probe _, some r => ∀ v, a = .val v → r = some v
   | _, _ => True
@@ -445,6 +447,20 @@ theorem step_get_eq (cfg : Cfg) (w : World) (e : Exec) (t : Txn) (k : Nat) (hc :
                   tc := (getTrieNode cfg (tcGet cfg w.sc t.tc e.bc e.prev k) t.tc t.trie k).2.1 } } },
        (getTrieNode cfg (tcGet cfg w.sc t.tc e.bc e.prev k) t.tc t.trie k).2.2) := by
   simp only [step, hc, ht]
+
+theorem step_getr_eq (cfg : Cfg) (w : World) (e : Exec) (t : Txn) (k : Nat) (hc : w.cur = some e) (ht : e.txn = some t) :
+    step cfg w (.getr k) =
+      ({ w with sc := (getTrieNode cfg ((tcGet cfg w.sc t.tc e.bc e.prev k).1, .miss) t.tc t.trie k).1,
+                cur := some { e with txn := some { t with
+                  tc := (getTrieNode cfg ((tcGet cfg w.sc t.tc e.bc e.prev k).1, .miss) t.tc t.trie k).2.1 } } },
+       (getTrieNode cfg ((tcGet cfg w.sc t.tc e.bc e.prev k).1, .miss) t.tc t.trie k).2.2) := by
+  simp only [step, hc, ht]
+
+theorem step_getn_eq (cfg : Cfg) (w : World) (e : Exec) (t : Txn) (k : Nat) (hc : w.cur = some e) (ht : e.txn = some t) :
+    step cfg w (.getn k) =
+      ({ w with sc := (tcGet cfg w.sc t.tc e.bc e.prev k).1 }, ansOf (KV.get t.trie k)) := by
+  simp only [step, hc, ht]
+  cases KV.get t.trie k <;> rfl
 
 theorem step_tree {cfg : Cfg} (hf : Faithful cfg) (hk : cfg.keep = true) {w : World} (h : TreeInv w) (op : Op)
     (hop : ∀ x p, op = .begin_ x p → x ≠ 0) :
@@ -556,6 +572,71 @@ theorem step_tree {cfg : Cfg} (hf : Faithful cfg) (hk : cfg.keep = true) {w : Wo
             refine ⟨⟨hinv', hlk, fun e' he' => ?_⟩, by simp⟩
             simp only [Option.some.injEq] at he'; subst he'
             exact h.exec e hc
+  | insfail k =>
+    refine ⟨?_, by simp [ReadOK]⟩
+    simp only [step]
+    cases hc : w.cur with
+    | none => exact h
+    | some e =>
+      simp only
+      cases ht : e.txn <;> exact h
+  | getn k =>
+    cases hc : w.cur with
+    | none => simp [step, hc, ReadOK, refRead]; exact h
+    | some e =>
+      cases ht : e.txn with
+      | none => simp [step, hc, ht, ReadOK, refRead]; exact h
+      | some t =>
+        obtain ⟨h0, Tp, hTp, hl, hn, hx⟩ := h.exec e hc
+        obtain ⟨hlt, hnt⟩ := hx t ht
+        obtain ⟨hsc', hbase⟩ := scGet_keep hf hk h.sc (key := k) hTp
+        obtain ⟨_, hsc⟩ := read_layers hf hlt hl w.sc e.prev k hbase
+        have hinv' : ScInv (tcGet cfg w.sc t.tc e.bc e.prev k).1 w.tries := by
+          rcases hsc with hs | hs <;> rw [hs]
+          · exact h.sc
+          · exact hsc'
+        have hhs : (tcGet cfg w.sc t.tc e.bc e.prev k).1.hashes = w.sc.hashes := by
+          rcases hsc with hs | hs <;> rw [hs]
+          exact scGet_hashes _ _ _ _
+        have hlk : ∀ b T, KV.get w.tries b = some T → b = 0 ∨ ∃ p, KV.get (tcGet cfg w.sc t.tc e.bc e.prev k).1.hashes b = some p := by
+          rw [hhs]; exact h.linked
+        rw [step_getn_eq cfg w e t k hc ht]
+        refine ⟨⟨hinv', hlk, fun e' he' => ?_⟩, ?_⟩
+        · simp only at he'; rw [hc] at he'; simp only [Option.some.injEq] at he'; subst he'
+          exact h.exec e hc
+        · simp only [ReadOK, refRead, hc, ht]
+  | getr k =>
+    cases hc : w.cur with
+    | none => simp [step, hc, ReadOK, refRead]; exact h
+    | some e =>
+      cases ht : e.txn with
+      | none => simp [step, hc, ht, ReadOK, refRead]; exact h
+      | some t =>
+        obtain ⟨h0, Tp, hTp, hl, hn, hx⟩ := h.exec e hc
+        obtain ⟨hlt, hnt⟩ := hx t ht
+        obtain ⟨hsc', hbase⟩ := scGet_keep hf hk h.sc (key := k) hTp
+        obtain ⟨_, hsc⟩ := read_layers hf hlt hl w.sc e.prev k hbase
+        have hinv' : ScInv (tcGet cfg w.sc t.tc e.bc e.prev k).1 w.tries := by
+          rcases hsc with hs | hs <;> rw [hs]
+          · exact h.sc
+          · exact hsc'
+        have hhs : (tcGet cfg w.sc t.tc e.bc e.prev k).1.hashes = w.sc.hashes := by
+          rcases hsc with hs | hs <;> rw [hs]
+          exact scGet_hashes _ _ _ _
+        have hlk : ∀ b T, KV.get w.tries b = some T → b = 0 ∨ ∃ p, KV.get (tcGet cfg w.sc t.tc e.bc e.prev k).1.hashes b = some p := by
+          rw [hhs]; exact h.linked
+        obtain ⟨g1, g2, g3, g4⟩ := getTrieNode_ok hf hlt ((tcGet cfg w.sc t.tc e.bc e.prev k).1, Hit.miss) k
+          (by intro v hv; cases hv)
+        rw [step_getr_eq cfg w e t k hc ht]
+        refine ⟨⟨by simp only [g1]; exact hinv', by simp only [g1]; exact hlk, fun e' he' => ?_⟩, ?_⟩
+        · simp only [Option.some.injEq] at he'
+          subst he'
+          refine ⟨h0, Tp, hTp, hl, hn, ?_⟩
+          intro t' ht'
+          simp only [Option.some.injEq] at ht'
+          subst ht'
+          exact ⟨g2, g4 hnt⟩
+        · simp only [ReadOK, refRead, hc, ht, g3]
   | ins k v =>
     refine ⟨?_, by simp [ReadOK]⟩
     simp only [step]
@@ -1047,6 +1128,67 @@ theorem step_lin {cfg : Cfg} (hf : Faithful cfg) {w : World} {tip : Nat} (h : Li
             refine ⟨⟨hinv', fun e' he' => ?_, h.tipT⟩, by simp⟩
             simp only [Option.some.injEq] at he'; subst he'
             exact h.exec e hc
+  | insfail k =>
+    refine ⟨?_, by simp [ReadOK]⟩
+    simp only [step, nextTip]
+    cases hc : w.cur with
+    | none => exact h
+    | some e =>
+      simp only
+      cases ht : e.txn <;> exact h
+  | getn k =>
+    simp only [nextTip]
+    cases hc : w.cur with
+    | none => simp [step, hc, ReadOK, refRead]; exact h
+    | some e =>
+      cases ht : e.txn with
+      | none => simp [step, hc, ht, ReadOK, refRead]; exact h
+      | some t =>
+        obtain ⟨h0, h1, Tp, hTp, hl, hn, hx⟩ := h.exec e hc
+        obtain ⟨hlt, hnt⟩ := hx t ht
+        obtain ⟨hsc0, hbase0⟩ := scGet_lin hf h.sc (key := k) hTp
+        have hsc' : ScLin (scGet cfg w.sc k e.prev).1 w.tries tip := by rw [h0]; exact hsc0
+        have hbase : ∀ v, (scGet cfg w.sc k e.prev).2 = .hit v → KV.get Tp k = some v := by rw [h0]; exact hbase0
+        obtain ⟨_, hsc⟩ := read_layers hf hlt hl w.sc e.prev k hbase
+        have hinv' : ScLin (tcGet cfg w.sc t.tc e.bc e.prev k).1 w.tries tip := by
+          rcases hsc with hs | hs <;> rw [hs]
+          · exact h.sc
+          · exact hsc'
+        rw [step_getn_eq cfg w e t k hc ht]
+        refine ⟨⟨hinv', fun e' he' => ?_, h.tipT⟩, ?_⟩
+        · simp only at he'; rw [hc] at he'; simp only [Option.some.injEq] at he'; subst he'
+          exact h.exec e hc
+        · simp only [ReadOK, refRead, hc, ht]
+  | getr k =>
+    simp only [nextTip]
+    cases hc : w.cur with
+    | none => simp [step, hc, ReadOK, refRead]; exact h
+    | some e =>
+      cases ht : e.txn with
+      | none => simp [step, hc, ht, ReadOK, refRead]; exact h
+      | some t =>
+        obtain ⟨h0, h1, Tp, hTp, hl, hn, hx⟩ := h.exec e hc
+        obtain ⟨hlt, hnt⟩ := hx t ht
+        obtain ⟨hsc0, hbase0⟩ := scGet_lin hf h.sc (key := k) hTp
+        have hsc' : ScLin (scGet cfg w.sc k e.prev).1 w.tries tip := by rw [h0]; exact hsc0
+        have hbase : ∀ v, (scGet cfg w.sc k e.prev).2 = .hit v → KV.get Tp k = some v := by rw [h0]; exact hbase0
+        obtain ⟨_, hsc⟩ := read_layers hf hlt hl w.sc e.prev k hbase
+        have hinv' : ScLin (tcGet cfg w.sc t.tc e.bc e.prev k).1 w.tries tip := by
+          rcases hsc with hs | hs <;> rw [hs]
+          · exact h.sc
+          · exact hsc'
+        obtain ⟨g1, g2, g3, g4⟩ := getTrieNode_ok hf hlt ((tcGet cfg w.sc t.tc e.bc e.prev k).1, Hit.miss) k
+          (by intro v hv; cases hv)
+        rw [step_getr_eq cfg w e t k hc ht]
+        refine ⟨⟨by simp only [g1]; exact hinv', fun e' he' => ?_, h.tipT⟩, ?_⟩
+        · simp only [Option.some.injEq] at he'
+          subst he'
+          refine ⟨h0, h1, Tp, hTp, hl, hn, ?_⟩
+          intro t' ht'
+          simp only [Option.some.injEq] at ht'
+          subst ht'
+          exact ⟨g2, g4 hnt⟩
+        · simp only [ReadOK, refRead, hc, ht, g3]
   | ins k v =>
     refine ⟨?_, by simp [ReadOK]⟩
     simp only [step, nextTip]
@@ -1243,7 +1385,7 @@ theorem tcGet_sub (cfg : Cfg) (sc : SCache) (tc bc : KV VNode) (prev k : Nat) :
 
 /-- the operations of a transaction -/
 def TxnOp : Op → Prop
-  | .get _ | .probe _ | .ins _ _ | .del _ => True
+  | .get _ | .probe _ | .ins _ _ | .del _ | .insfail _ | .getn _ | .getr _ => True
   | _ => False
 
 theorem txnOp_step (cfg : Cfg) (w : World) (e : Exec) (t : Txn) (hc : w.cur = some e) (ht : e.txn = some t)
@@ -1280,6 +1422,22 @@ theorem txnOp_step (cfg : Cfg) (w : World) (e : Exec) (t : Txn) (hc : w.cur = so
     cases KV.get t.trie k with
     | none => exact ⟨t, by simp only; first | exact congrArg some he | exact hc.trans (congrArg some he), by first | rfl | trivial, SubNodes.refl _⟩
     | some _ => exact ⟨_, rfl, by first | rfl | trivial, SubNodes.refl _⟩
+  | insfail k =>
+    simp only [step, hc, ht]
+    exact ⟨t, congrArg some he, trivial, SubNodes.refl _⟩
+  | getn k =>
+    rw [step_getn_eq cfg w e t k hc ht]
+    exact ⟨t, by simp only; exact hc.trans (congrArg some he), rfl, tcGet_sub _ _ _ _ _ _⟩
+  | getr k =>
+    rw [step_getr_eq cfg w e t k hc ht]
+    refine ⟨_, rfl, rfl, ?_⟩
+    simp only
+    have : (getTrieNode cfg ((tcGet cfg w.sc t.tc e.bc e.prev k).1, Hit.miss) t.tc t.trie k).1 = (tcGet cfg w.sc t.tc e.bc e.prev k).1 := by
+      unfold getTrieNode
+      simp only
+      cases KV.get t.trie k <;> rfl
+    rw [this]
+    exact tcGet_sub _ _ _ _ _ _
   | _ => exact absurd hop (by simp [TxnOp])
 
 theorem txnOps_run (cfg : Cfg) (e : Exec) (ops : List Op) (hops : ∀ op ∈ ops, TxnOp op) :
